@@ -792,10 +792,13 @@ recorded value) and the store built from the oracle and the call graph.  `h6` is
 proof: it cuts the statement down to the DOMAIN on which the static model is the compiler's (audit
 pass 2, C01-M2) — no control is an element of a split collection (there the compiler simplifies the
 control, `resolveDisableExp`; the static model is not compared with it).  (Audit C01-M1, a control
-without a value: a JSON null control counts as "not disabled" in den, in the model AND in the code —
-`Fork.disabled`: `json.Unmarshal` of `null` into a bool succeeds and leaves false, the "null value
-… not permitted" branch is unreachable for recorded outputs; a control bound to an output of a call
-that may itself be disabled is rejected by the compiler.  Both observed on the real code: family
+without a value: it counts as "not disabled" in den and in the model.  The code agrees for a null
+SCALAR output — `Fork.disabled`: `json.Unmarshal` of the raw `null` into a bool leaves false — and
+rejects at compile time a control bound to an output of a call that may itself be disabled.  It does
+NOT agree for a control that is a member projected from a NULL STRUCT value (`disabled = S.s.flag`,
+`S.s = null`): the compiler accepts, the fork fails "disabled is bound to a null value" — known
+finding C01-F39 (audit pass 3, A3; fail-stop).  Such programs satisfy every hypothesis below: on
+that shape this theorem is about the model only.  All observed on the real code: family
 null-control.) -/
 theorem resolver_refines_den_disabled_checked_partial (P : Program) (nm : List String → String) (O : Oracle)
     (h1 : wellTypedEB P = true) (h2 : acyclicB P.table = true)
